@@ -1,0 +1,297 @@
+//go:build verif
+
+// Contracts for the action side of data.go (C17: "with an admin identity, or with no admin list, the action is carried out on
+// every relevant nsqd and nsqlookupd") and for the producer dispatchers (C18), checked by nsqvc. Comment-only file.
+// Assumed library contracts and the ghost record of the POSTs (r4DPosted, r4DPostCount, r4DPostFails): .trusted/r4d.spec.
+
+package clusterinfo
+
+// The URL an action is POSTed to: fmt.Sprintf("http://%s/%s?%s", addr, uri, qs).
+//@ fn r4DEndpoint(addr string, uri string, qs string) string := r4DFmt3("http://%s/%s?%s", addr, uri, qs)
+// Every entry of a producer list is a real object.
+//@ pred r4DProducersReal(pl Producers) := forall k int :: {pl[k]} 0 <= k && k < len(pl) ==> pl[k] != nil
+// "A POST of (uri, qs) was issued to every address of the list / to every producer of the list."
+//@ pred r4DPostedToAddrs(addrs []string, uri string, qs string) := forall k int :: {addrs[k]} 0 <= k && k < len(addrs) ==> setin(r4DPosted, r4DEndpoint(addrs[k], uri, qs))
+// (the same over the ENTRY contents of the address list: for functions that call a look-up - which has no frame - after the POSTs)
+//@ pred r4DPostedToAddrs0(addrs []string, uri string, qs string) := forall k int :: {old(addrs[k])} 0 <= k && k < len(addrs) ==> setin(r4DPosted, r4DEndpoint(old(addrs[k]), uri, qs))
+//@ pred r4DPostedToProducers(pl Producers, uri string, qs string) := forall k int :: {pl[k]} 0 <= k && k < len(pl) ==> setin(r4DPosted, r4DEndpoint(r4DHTTPAddr(pl[k]), uri, qs))
+// The error of a fan-out: nil iff no POST failed, else the ErrList of exactly the failures.
+//@ pred r4DErrsOf(err error, fails int) := (err == nil <==> fails == 0) && (ipartial(err) ==> len(unbox(err, "ErrList")) == fails)
+// ... and a non-nil error of a fan-out is always that ErrList. This fact makes the defensive `if !ok { return err }` branches of the
+// callers dead code, which the engine's vacuity guard (a cover query per return) reports as a FAULT. It is therefore stated under the
+// hypothesis switch r4Dk - a `ghostparam` of type bool, i.e. an arbitrary but fixed value: every clause `r4Dk ==> X` below is verified
+// for both values, so X holds; with r4Dk == false the model does not know the dynamic type and the dead branches stay coverable.
+//@ pred r4DErrsPartial(err error) := err == nil || ipartial(err)
+
+// Record of the most recent look-up of a topic's producers (set at the return of GetLookupdTopicProducers / GetNSQDTopicProducers)
+// and of all producers (GetLookupdProducers / GetNSQDProducers): which kind ("lookupd" / "nsqd"), topic, address list, results.
+//@ ghost r4DTPCalls int
+//@ ghost r4DTPKind string
+//@ ghost r4DTPTopic string
+//@ ghost r4DTPAddrs []string
+//@ ghost r4DTPRes Producers
+//@ ghost r4DTPErr error
+//@ ghost r4DNPCalls int
+//@ ghost r4DNPKind string
+//@ ghost r4DNPAddrs []string
+//@ ghost r4DNPRes Producers
+//@ ghost r4DNPErr error
+
+// GetTopicProducers / GetProducers: exactly one look-up, of the kind selected by the configuration (lookupd mode iff a lookupd is
+// configured), and the caller gets exactly what that look-up returned - the producers AND the error value with its dynamic type
+// (the handlers and the action functions tell a partial failure from a total one by a type assertion on it).
+//@ func (c *ClusterInfo) GetTopicProducers(topicName string, lookupdHTTPAddrs []string, nsqdHTTPAddrs []string) (Producers, error)
+//@   props C18 C17
+//@   requires c != nil
+//@   ensures[one-look-up] r4DTPCalls == old(r4DTPCalls) + 1 && r4DTPTopic == topicName
+//@   ensures[lookupd-mode] len(lookupdHTTPAddrs) != 0 ==> r4DTPKind == "lookupd" && r4DTPAddrs == lookupdHTTPAddrs
+//@   ensures[nsqd-mode] len(lookupdHTTPAddrs) == 0 ==> r4DTPKind == "nsqd" && r4DTPAddrs == nsqdHTTPAddrs
+//@   ensures[producers-as-found] result0 == r4DTPRes
+//@   ensures[error-as-found] result1 == r4DTPErr && dyntype(result1) == dyntype(r4DTPErr)
+//@   ensures[partial-count] result0 != nil ==> ipartialCount(result1, len(r4DTPAddrs))
+//@   ensures[shape] result1 == nil || ipartial(result1) || result0 == nil
+//@   ensures[partial-nonempty] ipartial(result1) ==> len(unbox(result1, "ErrList")) > 0
+//@   ensures[no-post] r4DPostCount == old(r4DPostCount) && r4DPostFails == old(r4DPostFails) && r4DPosted == old(r4DPosted)
+
+//@ func (c *ClusterInfo) GetProducers(lookupdHTTPAddrs []string, nsqdHTTPAddrs []string) (Producers, error)
+//@   props C18
+//@   requires c != nil
+//@   ensures[one-look-up] r4DNPCalls == old(r4DNPCalls) + 1
+//@   ensures[lookupd-mode] len(lookupdHTTPAddrs) != 0 ==> r4DNPKind == "lookupd" && r4DNPAddrs == lookupdHTTPAddrs
+//@   ensures[nsqd-mode] len(lookupdHTTPAddrs) == 0 ==> r4DNPKind == "nsqd" && r4DNPAddrs == nsqdHTTPAddrs
+//@   ensures[producers-as-found] result0 == r4DNPRes
+//@   ensures[error-as-found] result1 == r4DNPErr && dyntype(result1) == dyntype(r4DNPErr)
+//@   ensures[partial-count] result0 != nil ==> ipartialCount(result1, len(r4DNPAddrs))
+//@   ensures[shape] result1 == nil || ipartial(result1) || result0 == nil
+//@   ensures[partial-nonempty] ipartial(result1) ==> len(unbox(result1, "ErrList")) > 0
+//@   ensures[no-post] r4DPostCount == old(r4DPostCount) && r4DPostFails == old(r4DPostFails) && r4DPosted == old(r4DPosted)
+
+//@ func (l ErrList) Errors() []error
+//@   props C17 C18
+//@   ensures[the-list] result == l
+//@   modifies
+
+// nsqlookupdPOST: the action is POSTed to EVERY nsqlookupd of the list, exactly one POST per list entry, each to
+// http://<addr>/<uri>?<qs>; failures are collected (one error per failed POST), nil iff none failed.
+//@ func (c *ClusterInfo) nsqlookupdPOST(addrs []string, uri string, qs string) error
+//@   props C17
+//@   ghostparam r4Dk bool
+//@   requires c != nil && c.client != nil
+//@   ensures[every-lookupd-posted] r4DPostedToAddrs(addrs, uri, qs)
+//@   ensures[one-post-per-lookupd] r4DPostCount == old(r4DPostCount) + len(addrs)
+//@   ensures[earlier-posts-kept] forall e string :: {setin(r4DPosted, e)} old(setin(r4DPosted, e)) ==> setin(r4DPosted, e)
+//@   ensures[errors-collected] r4DErrsOf(result, r4DPostFails - old(r4DPostFails))
+//@   ensures[errors-are-partial] r4Dk ==> r4DErrsPartial(result)
+//@   ensures[fails-bounded] 0 <= r4DPostFails - old(r4DPostFails) && r4DPostFails - old(r4DPostFails) <= len(addrs)
+//@   modifies r4DPosted, r4DPostCount, r4DPostFails
+//@   loop 0
+//@     invariant[idx] rangeindex < len(addrs)
+//@     invariant[posted-so-far] forall k int :: {addrs[k]} 0 <= k && k <= rangeindex && k < len(addrs) ==> setin(r4DPosted, r4DEndpoint(addrs[k], uri, qs))
+//@     invariant[count] r4DPostCount == old(r4DPostCount) + rangeindex + 1
+//@     invariant[kept] forall e string :: {setin(r4DPosted, e)} old(setin(r4DPosted, e)) ==> setin(r4DPosted, e)
+//@     invariant[errs] len(errs) == r4DPostFails - old(r4DPostFails) && len(errs) <= rangeindex + 1
+//@     invariant[errs-own] errs == nil || fresh(base(errs))
+
+// producersPOST: the same for EVERY producer (nsqd) of the list, at its HTTP address.
+//@ func (c *ClusterInfo) producersPOST(pl Producers, uri string, qs string) error
+//@   props C17
+//@   ghostparam r4Dk bool
+//@   requires c != nil && c.client != nil
+//@   ensures[every-producer-posted] r4DPostedToProducers(pl, uri, qs)
+//@   ensures[one-post-per-producer] r4DPostCount == old(r4DPostCount) + len(pl)
+//@   ensures[earlier-posts-kept] forall e string :: {setin(r4DPosted, e)} old(setin(r4DPosted, e)) ==> setin(r4DPosted, e)
+//@   ensures[errors-collected] r4DErrsOf(result, r4DPostFails - old(r4DPostFails))
+//@   ensures[errors-are-partial] r4Dk ==> r4DErrsPartial(result)
+//@   ensures[fails-bounded] 0 <= r4DPostFails - old(r4DPostFails) && r4DPostFails - old(r4DPostFails) <= len(pl)
+//@   modifies r4DPosted, r4DPostCount, r4DPostFails
+//@   loop 0
+// ASSUMED (call protocol): every producer list handed to producersPOST was built by the workers of GetLookupdTopicProducers /
+// GetNSQDTopicProducers / GetNSQDProducers, which append only real (non-nil) producers - verified for the merge worker
+// (GetLookupdTopicProducers$1/ensures[only-real-producers]); the workers' writes are not modelled in their parents (goroutines are
+// skipped, wg.Wait() leaves arbitrary values), so the fact cannot be carried to this call by contracts.
+//@     assume r4DProducersReal(pl)
+//@     invariant[idx] rangeindex < len(pl)
+//@     invariant[posted-so-far] forall k int :: {pl[k]} 0 <= k && k <= rangeindex && k < len(pl) ==> setin(r4DPosted, r4DEndpoint(r4DHTTPAddr(pl[k]), uri, qs))
+//@     invariant[count] r4DPostCount == old(r4DPostCount) + rangeindex + 1
+//@     invariant[kept] forall e string :: {setin(r4DPosted, e)} old(setin(r4DPosted, e)) ==> setin(r4DPosted, e)
+//@     invariant[errs] len(errs) == r4DPostFails - old(r4DPostFails) && len(errs) <= rangeindex + 1
+//@     invariant[errs-own] errs == nil || fresh(base(errs))
+
+// ---- the admin actions ---------------------------------------------------------------------------------------------------------
+// Query strings of the actions (fmt.Sprintf over url.QueryEscape; both uninterpreted functions, .trusted/r4d.spec).
+//@ fn r4DTopicQS(t string) string := r4DFmt1("topic=%s", r4DQueryEscape(t))
+//@ fn r4DChanQS(t string, ch string) string := r4DFmt2("topic=%s&channel=%s", r4DQueryEscape(t), r4DQueryEscape(ch))
+//@ fn r4DNodeQS(t string, node string) string := r4DFmt2("topic=%s&node=%s", r4DQueryEscape(t), r4DQueryEscape(node))
+// Exactly one look-up of the topic's producers since entry, of the kind the configuration selects.
+//@ pred r4DLookedUp(topic string, lookupds []string, nsqds []string) := r4DTPCalls == old(r4DTPCalls) + 1 && r4DTPTopic == topic
+//@      && (len(lookupds) != 0 ? (r4DTPKind == "lookupd" && r4DTPAddrs == lookupds) : (r4DTPKind == "nsqd" && r4DTPAddrs == nsqds))
+// A look-up result the action goes on with: complete, or partial (some upstreams failed, the rest answered).
+//@ pred r4DUsable(err error) := err == nil || ipartial(err)
+//@ fn r4DErrCount(err error) int := ipartial(err) ? len(unbox(err, "ErrList")) : 0
+// The error of an action that looked producers up (lookup error lerr) and then issued POSTs: nil iff nothing failed; otherwise the
+// ErrList of the look-up's errors and one error per failed POST; a total look-up failure is returned as it is.
+//@ pred r4DActionErr(result error, lerr error) := (r4DUsable(lerr) ==> ((result == nil <==> (lerr == nil && r4DPostFails == old(r4DPostFails)))
+//@      && (result != nil ==> ipartial(result) && len(unbox(result, "ErrList")) == r4DErrCount(lerr) + r4DPostFails - old(r4DPostFails))))
+//@      && (result != nil && !ipartial(result) ==> result == lerr)
+
+// actionHelper (pause / unpause / empty of a topic or channel): the producers of the topic are looked up, and unless the look-up failed
+// completely the action (uri, qs) is POSTed to EVERY producer found, one POST each, nothing else.
+//@ func (c *ClusterInfo) actionHelper(topicName string, lookupdHTTPAddrs []string, nsqdHTTPAddrs []string, uri string, qs string) error
+//@   props C17
+//@   ghostparam r4Dk bool
+//@   requires c != nil && c.client != nil
+//@   ensures[looked-up] r4DLookedUp(topicName, lookupdHTTPAddrs, nsqdHTTPAddrs)
+//@   ensures[carried-out-on-every-producer] r4DUsable(r4DTPErr) ==> r4DPostedToProducers(r4DTPRes, uri, qs) && r4DPostCount == old(r4DPostCount) + len(r4DTPRes)
+//@   ensures[no-other-post] r4DPostCount == old(r4DPostCount) || r4DPostCount == old(r4DPostCount) + len(r4DTPRes)
+//@   ensures[errors] r4Dk ==> r4DActionErr(result, r4DTPErr)
+//@   ensures[nothing-failed-means-nil] r4DTPErr == nil && r4DPostFails == old(r4DPostFails) ==> result == nil
+
+//@ func (c *ClusterInfo) PauseTopic(topicName string, lookupdHTTPAddrs []string, nsqdHTTPAddrs []string) error
+//@   props C17
+//@   ghostparam r4Dk bool
+//@   requires c != nil && c.client != nil
+//@   ensures[looked-up] r4DLookedUp(topicName, lookupdHTTPAddrs, nsqdHTTPAddrs)
+//@   ensures[carried-out-on-every-producer] r4DUsable(r4DTPErr) ==> r4DPostedToProducers(r4DTPRes, "topic/pause", r4DTopicQS(topicName)) && r4DPostCount == old(r4DPostCount) + len(r4DTPRes)
+//@   ensures[errors] r4Dk ==> r4DActionErr(result, r4DTPErr)
+//@   ensures[nothing-failed-means-nil] r4DTPErr == nil && r4DPostFails == old(r4DPostFails) ==> result == nil
+//@ func (c *ClusterInfo) UnPauseTopic(topicName string, lookupdHTTPAddrs []string, nsqdHTTPAddrs []string) error
+//@   props C17
+//@   ghostparam r4Dk bool
+//@   requires c != nil && c.client != nil
+//@   ensures[looked-up] r4DLookedUp(topicName, lookupdHTTPAddrs, nsqdHTTPAddrs)
+//@   ensures[carried-out-on-every-producer] r4DUsable(r4DTPErr) ==> r4DPostedToProducers(r4DTPRes, "topic/unpause", r4DTopicQS(topicName)) && r4DPostCount == old(r4DPostCount) + len(r4DTPRes)
+//@   ensures[errors] r4Dk ==> r4DActionErr(result, r4DTPErr)
+//@   ensures[nothing-failed-means-nil] r4DTPErr == nil && r4DPostFails == old(r4DPostFails) ==> result == nil
+//@ func (c *ClusterInfo) EmptyTopic(topicName string, lookupdHTTPAddrs []string, nsqdHTTPAddrs []string) error
+//@   props C17
+//@   ghostparam r4Dk bool
+//@   requires c != nil && c.client != nil
+//@   ensures[looked-up] r4DLookedUp(topicName, lookupdHTTPAddrs, nsqdHTTPAddrs)
+//@   ensures[carried-out-on-every-producer] r4DUsable(r4DTPErr) ==> r4DPostedToProducers(r4DTPRes, "topic/empty", r4DTopicQS(topicName)) && r4DPostCount == old(r4DPostCount) + len(r4DTPRes)
+//@   ensures[errors] r4Dk ==> r4DActionErr(result, r4DTPErr)
+//@   ensures[nothing-failed-means-nil] r4DTPErr == nil && r4DPostFails == old(r4DPostFails) ==> result == nil
+//@ func (c *ClusterInfo) PauseChannel(topicName string, channelName string, lookupdHTTPAddrs []string, nsqdHTTPAddrs []string) error
+//@   props C17
+//@   ghostparam r4Dk bool
+//@   requires c != nil && c.client != nil
+//@   ensures[looked-up] r4DLookedUp(topicName, lookupdHTTPAddrs, nsqdHTTPAddrs)
+//@   ensures[carried-out-on-every-producer] r4DUsable(r4DTPErr) ==> r4DPostedToProducers(r4DTPRes, "channel/pause", r4DChanQS(topicName, channelName)) && r4DPostCount == old(r4DPostCount) + len(r4DTPRes)
+//@   ensures[errors] r4Dk ==> r4DActionErr(result, r4DTPErr)
+//@   ensures[nothing-failed-means-nil] r4DTPErr == nil && r4DPostFails == old(r4DPostFails) ==> result == nil
+//@ func (c *ClusterInfo) UnPauseChannel(topicName string, channelName string, lookupdHTTPAddrs []string, nsqdHTTPAddrs []string) error
+//@   props C17
+//@   ghostparam r4Dk bool
+//@   requires c != nil && c.client != nil
+//@   ensures[looked-up] r4DLookedUp(topicName, lookupdHTTPAddrs, nsqdHTTPAddrs)
+//@   ensures[carried-out-on-every-producer] r4DUsable(r4DTPErr) ==> r4DPostedToProducers(r4DTPRes, "channel/unpause", r4DChanQS(topicName, channelName)) && r4DPostCount == old(r4DPostCount) + len(r4DTPRes)
+//@   ensures[errors] r4Dk ==> r4DActionErr(result, r4DTPErr)
+//@   ensures[nothing-failed-means-nil] r4DTPErr == nil && r4DPostFails == old(r4DPostFails) ==> result == nil
+//@ func (c *ClusterInfo) EmptyChannel(topicName string, channelName string, lookupdHTTPAddrs []string, nsqdHTTPAddrs []string) error
+//@   props C17
+//@   ghostparam r4Dk bool
+//@   requires c != nil && c.client != nil
+//@   ensures[looked-up] r4DLookedUp(topicName, lookupdHTTPAddrs, nsqdHTTPAddrs)
+//@   ensures[carried-out-on-every-producer] r4DUsable(r4DTPErr) ==> r4DPostedToProducers(r4DTPRes, "channel/empty", r4DChanQS(topicName, channelName)) && r4DPostCount == old(r4DPostCount) + len(r4DTPRes)
+//@   ensures[errors] r4Dk ==> r4DActionErr(result, r4DTPErr)
+//@   ensures[nothing-failed-means-nil] r4DTPErr == nil && r4DPostFails == old(r4DPostFails) ==> result == nil
+
+// DeleteTopic / DeleteChannel: the producers are looked up (first: the look-up issues no POST), then the deletion is POSTed to EVERY
+// nsqlookupd of the list and to EVERY producer found - one POST each, nothing else.
+//@ func (c *ClusterInfo) DeleteTopic(topicName string, lookupdHTTPAddrs []string, nsqdHTTPAddrs []string) error
+//@   props C17
+//@   ghostparam r4Dk bool
+//@   requires c != nil && c.client != nil
+//@   ensures[looked-up] r4DLookedUp(topicName, lookupdHTTPAddrs, nsqdHTTPAddrs)
+//@   ensures[removed-from-every-lookupd] r4DUsable(r4DTPErr) ==> r4DPostedToAddrs(lookupdHTTPAddrs, "topic/delete", r4DTopicQS(topicName))
+//@   ensures[removed-from-every-producer] r4Dk && r4DUsable(r4DTPErr) ==> r4DPostedToProducers(r4DTPRes, "topic/delete", r4DTopicQS(topicName))
+//@   ensures[exact-posts] r4Dk && r4DUsable(r4DTPErr) ==> r4DPostCount == old(r4DPostCount) + len(lookupdHTTPAddrs) + len(r4DTPRes)
+//@   ensures[errors] r4Dk ==> r4DActionErr(result, r4DTPErr)
+//@   ensures[nothing-failed-means-nil] r4DTPErr == nil && r4DPostFails == old(r4DPostFails) ==> result == nil
+//@ func (c *ClusterInfo) DeleteChannel(topicName string, channelName string, lookupdHTTPAddrs []string, nsqdHTTPAddrs []string) error
+//@   props C17
+//@   ghostparam r4Dk bool
+//@   requires c != nil && c.client != nil
+//@   ensures[looked-up] r4DLookedUp(topicName, lookupdHTTPAddrs, nsqdHTTPAddrs)
+//@   ensures[removed-from-every-lookupd] r4DUsable(r4DTPErr) ==> r4DPostedToAddrs(lookupdHTTPAddrs, "channel/delete", r4DChanQS(topicName, channelName))
+//@   ensures[removed-from-every-producer] r4Dk && r4DUsable(r4DTPErr) ==> r4DPostedToProducers(r4DTPRes, "channel/delete", r4DChanQS(topicName, channelName))
+//@   ensures[exact-posts] r4Dk && r4DUsable(r4DTPErr) ==> r4DPostCount == old(r4DPostCount) + len(lookupdHTTPAddrs) + len(r4DTPRes)
+//@   ensures[errors] r4Dk ==> r4DActionErr(result, r4DTPErr)
+//@   ensures[nothing-failed-means-nil] r4DTPErr == nil && r4DPostFails == old(r4DPostFails) ==> result == nil
+
+// CreateTopicChannel: the topic is created on EVERY nsqlookupd; with a channel name, the channel is created on EVERY nsqlookupd and on
+// EVERY producer of the topic the nsqlookupds report.
+//@ func (c *ClusterInfo) CreateTopicChannel(topicName string, channelName string, lookupdHTTPAddrs []string) error
+//@   props C17
+//@   ghostparam r4Dk bool
+//@   requires c != nil && c.client != nil
+//@   ensures[topic-created-on-every-lookupd] r4DPostedToAddrs0(lookupdHTTPAddrs, "topic/create", r4DTopicQS(topicName))
+//@   ensures[channel-created-on-every-lookupd] r4Dk && len(channelName) > 0 ==> r4DPostedToAddrs0(lookupdHTTPAddrs, "channel/create", r4DChanQS(topicName, channelName))
+//@   ensures[producers-looked-up] r4Dk && len(channelName) > 0 ==> r4DTPCalls == old(r4DTPCalls) + 1 && r4DTPKind == "lookupd" && r4DTPTopic == topicName && r4DTPAddrs == lookupdHTTPAddrs
+//@   ensures[channel-created-on-every-producer] r4Dk && len(channelName) > 0 && r4DUsable(r4DTPErr) ==> r4DPostedToProducers(r4DTPRes, "channel/create", r4DChanQS(topicName, channelName))
+//@   ensures[exact-posts-topic-only] len(channelName) == 0 ==> r4DPostCount == old(r4DPostCount) + len(lookupdHTTPAddrs) && r4DTPCalls == old(r4DTPCalls)
+//@   ensures[exact-posts-with-channel] r4Dk && len(channelName) > 0 && r4DUsable(r4DTPErr) ==> r4DPostCount == old(r4DPostCount) + 2 * len(lookupdHTTPAddrs) + len(r4DTPRes)
+//@   ensures[errors-topic-only] r4Dk && len(channelName) == 0 ==> r4DErrsOf(result, r4DPostFails - old(r4DPostFails)) && r4DErrsPartial(result)
+//@   ensures[errors-with-channel] r4Dk && len(channelName) > 0 ==> r4DActionErr(result, r4DTPErr)
+
+// TombstoneNodeForTopic: the tombstone is POSTed to EVERY nsqlookupd; the node is looked up (one nsqd address) and the topic is deleted
+// on every producer that look-up returned.
+//@ func (c *ClusterInfo) TombstoneNodeForTopic(topic string, node string, lookupdHTTPAddrs []string) error
+//@   props C17
+//@   ghostparam r4Dk bool
+//@   requires c != nil && c.client != nil
+//@   ensures[tombstoned-on-every-lookupd] r4DPostedToAddrs0(lookupdHTTPAddrs, "topic/tombstone", r4DNodeQS(topic, node))
+//@   ensures[node-looked-up] r4Dk ==> r4DNPCalls == old(r4DNPCalls) + 1 && r4DNPKind == "nsqd" && len(r4DNPAddrs) == 1
+//@   ensures[topic-deleted-on-the-node] r4Dk && r4DUsable(r4DNPErr) ==> r4DPostedToProducers(r4DNPRes, "topic/delete", r4DTopicQS(topic))
+//@   ensures[exact-posts] r4Dk && r4DUsable(r4DNPErr) ==> r4DPostCount == old(r4DPostCount) + len(lookupdHTTPAddrs) + len(r4DNPRes)
+//@   ensures[errors] r4Dk ==> r4DActionErr(result, r4DNPErr)
+//@   ensures[nothing-failed-means-nil] r4DNPErr == nil && r4DPostFails == old(r4DPostFails) ==> result == nil
+
+// ---- the merge workers (C18: "lists exactly the union of what the upstream daemons report") -------------------------------------
+// "the list s[0..n) has a producer with HTTP address a"
+//@ pred r4DListed(s Producers, n int, a string) := exists j int :: {s[j]} 0 <= j && j < n && s[j] != nil && r4DHTTPAddr(s[j]) == a
+
+// The per-lookupd worker of GetLookupdTopicProducers. lockassume = monitor invariant of the function-local mutex over the captured
+// list: it only ever holds real producers (kept by this worker: ensures[only-real-producers]).
+//@ func (c *ClusterInfo) GetLookupdTopicProducers$1(addr string)
+//@   props C18
+//@   requires c != nil && c.client != nil
+//@   lockassume r4DProducersReal(producers)
+//@   ensures[only-real-producers] r4DProducersReal(producers)
+//@   ensures[no-post] r4DPostCount == old(r4DPostCount) && r4DPostFails == old(r4DPostFails) && r4DPosted == old(r4DPosted)
+// Merge loop (loop 0 = over the reply, loop 1 = the search of the merged list). At the head of loop 0, for the reply entries 0..rangeindex:
+//   complete-so-far   every real (non-nil) producer of the reply seen so far is in the merged list, by HTTP address;
+//   present-kept      the entries the list had when the merge started are still there, in place;
+//   no-dup-added      an added entry has an HTTP address no earlier entry of the list has;
+//   real              the list holds real producers only.
+// ASSUMED (decoder): the decoded reply lives in memory the decoder allocated - its backing array is not the merged list's.
+//@   loop 0
+//@     assume len(resp.Producers) == 0 || base(resp.Producers) != base(producers)
+//@     invariant[idx] rangeindex < len(resp.Producers)
+//@     invariant[reply-fixed] resp.Producers == atloop(resp.Producers) && forall k int :: {resp.Producers[k]} 0 <= k && k < len(resp.Producers) ==> resp.Producers[k] == atloop(resp.Producers[k])
+//   (reply-anchor: the same for entry 0, as a quantifier-free fact - it gives the solvers the ground term they need to carry the
+//    reply across the append)
+//@     invariant[reply-anchor] len(resp.Producers) > 0 ==> resp.Producers[0] == atloop(resp.Producers[0])
+//@     invariant[real] r4DProducersReal(producers)
+//@     invariant[present-kept] len(producers) >= atloop(len(producers)) && forall j int :: {producers[j]} 0 <= j && j < atloop(len(producers)) ==> producers[j] == atloop(producers[j])
+//@     invariant[complete-so-far] forall k int :: {resp.Producers[k]} 0 <= k && k <= rangeindex && k < len(resp.Producers) && resp.Producers[k] != nil ==> r4DListed(producers, len(producers), r4DHTTPAddr(resp.Producers[k]))
+//@     invariant[no-dup-added] forall i int, j int :: {producers[i], producers[j]} 0 <= i && i < j && atloop(len(producers)) <= j && j < len(producers) ==> r4DHTTPAddr(producers[i]) != r4DHTTPAddr(producers[j])
+// When the merge loop is left - by whatever edge - the whole reply has been merged: the loop never ends before the last entry, and
+// EVERY real producer of the reply is in the merged list.
+//@     exit[all-merged] rangeindex + 1 >= len(resp.Producers)
+//@     exit[every-reply-producer-merged] forall k int :: {resp.Producers[k]} 0 <= k && k < len(resp.Producers) && resp.Producers[k] != nil ==> r4DListed(producers, len(producers), r4DHTTPAddr(resp.Producers[k]))
+//@   loop 1
+//@     invariant[idx] rangeindex < len(producers)
+//@     invariant[p-real] p != nil
+//@     invariant[not-yet] forall j int :: {producers[j]} 0 <= j && j <= rangeindex && j < len(producers) ==> r4DHTTPAddr(producers[j]) != r4DHTTPAddr(p)
+
+// Producers.Search (node view): the FIRST producer of the list with that HTTP address, nil iff there is none.
+//@ func (t Producers) Search(needle string) *Producer
+//@   props C18
+//@   ensures[found-is-listed] result != nil ==> exists j int :: {t[j]} 0 <= j && j < len(t) && t[j] == result && r4DHTTPAddr(result) == needle
+//@   ensures[nil-iff-absent] result == nil <==> !r4DListed(t, len(t), needle)
+//@   modifies
+// ASSUMED (call protocol, as for producersPOST): the list comes from GetProducers, whose workers register only real producers.
+//@   loop 0
+//@     assume r4DProducersReal(t)
+//@     invariant[idx] rangeindex < len(t)
+//@     invariant[not-yet] forall j int :: {t[j]} 0 <= j && j <= rangeindex && j < len(t) ==> r4DHTTPAddr(t[j]) != needle
